@@ -390,7 +390,6 @@ Theorem attacked_iff_attackers b s c : s < 64 -> c < 2 ->
 Proof.
   intros Hs Hc. rewrite <- attackers_main by assumption.
   rewrite !N.land_lor_distr_r, !lor_nz.
-  change (forall x y, negb (N.land x y =? 0) = meets x y) with (forall x y, meets x y = meets x y).
   repeat match goal with |- context [negb (N.land ?x ?y =? 0)] => change (negb (N.land x y =? 0)) with (meets x y) end.
   rewrite !meets_slide by discriminate.
   rewrite !meets_piece_word by (try discriminate; intros t Ht;
